@@ -98,6 +98,20 @@ def DVal.get (d : DVal) (k : String) : DVal :=
   | .struct fs => (lookupD fs k).getD (.struct [])
   | _ => .struct []
 
+/-- elements of a slice destination (anything else: none) -/
+def DVal.elems : DVal → List DVal
+  | .slice xs => xs
+  | _ => []
+
+/-- target of a non-nil pointer destination, else `dflt` (the freshly allocated zero value) -/
+def DVal.pointee (dflt : DVal) : DVal → DVal
+  | .ptr (some x) => x
+  | _ => dflt
+
+def DVal.isNilPtr : DVal → Bool
+  | .ptr (some _) => false
+  | _ => true
+
 def setD (fs : List (String × DVal)) (k : String) (x : DVal) : List (String × DVal) :=
   match fs with
   | [] => []
